@@ -1634,7 +1634,7 @@ demux_pes_packet		(vbi_dvb_demux *	dx,
 
 			if (VBI_ERR_CALLBACK == err) {
 				goto failed;
-			} else if (unlikely (err < 0)) {
+			} else if (unlikely (0 != err)) {
 				/* For compatibility with older
 				   versions just discard the data
 				   collected so far for this frame. */
